@@ -5,7 +5,7 @@
    incoming_edge_count[p] = number of parent slots naming p among the unprocessed individuals. *)
 From Coq Require Import List ZArith Bool Lia Permutation Sorted.
 From TskVerif Require Import Base.Common C07.Model C07.ListLemmas C07.SortProofs C07.RaggedProofs
-     C07.MutParentsProofs C07.TopProofs.
+     C07.MutParentsProofs C07.TopProofs C07.SweepProofs.
 Import ListNotations.
 Open Scope Z_scope.
 
@@ -132,4 +132,301 @@ Proof.
     + apply Z.eqb_neq in Z0. exists l. split; auto. split; auto.
       intro i. rewrite In_. split; [lia|]. intros [H1 H2].
       destruct (Z.eq_dec (Z.of_nat k) i); [subst; contradiction | lia].
+Qed.
+
+(* ---------------------------------------------------------------------- *)
+(* Kahn's invariant                                                        *)
+(* ---------------------------------------------------------------------- *)
+Definition par (inds : list individual) (j : Z) : list Z :=
+  match get inds j with Ok r => i_parents r | _ => [] end.
+(* number of parent slots naming p among the individuals U *)
+Definition cnt (inds : list individual) (U : list Z) (p : Z) : Z := occ p (flat_map (par inds) U).
+
+Lemma cnt_ge inds U p j : In j U -> occ p (par inds j) <= cnt inds U p.
+Proof.
+  unfold cnt. induction U as [|x t IH]; simpl; [tauto|]. rewrite occ_app.
+  pose proof (occ_nonneg p (par inds x)). pose proof (occ_nonneg p (flat_map (par inds) t)).
+  intros [->|H1]; [lia|]. specialize (IH H1). lia.
+Qed.
+
+Lemma cnt_remove inds U p j : NoDup U -> In j U ->
+  cnt inds U p = occ p (par inds j) + cnt inds (remove Z.eq_dec j U) p.
+Proof.
+  unfold cnt. induction U as [|x t IH]; intros ND Hin; simpl; [destruct Hin|].
+  inversion ND; subst. rewrite occ_app. destruct (Z.eq_dec j x) as [->|N].
+  - rewrite notin_remove by assumption. reflexivity.
+  - destruct Hin as [->|Hin]; [contradiction|]. simpl. rewrite occ_app. rewrite (IH H2 Hin). lia.
+Qed.
+
+Lemma NoDup_remove' (l : list Z) j : NoDup l -> NoDup (remove Z.eq_dec j l).
+Proof.
+  induction 1 as [|x t Hn ND IH]; simpl; [constructor|]. destruct (Z.eq_dec j x); auto.
+  constructor; auto. intro H. apply in_remove in H as [H _]. contradiction.
+Qed.
+
+Lemma NoDup_app_intro {A} (a b : list A) :
+  NoDup a -> NoDup b -> (forall x, In x a -> ~ In x b) -> NoDup (a ++ b).
+Proof.
+  induction 1 as [|x t Hn ND IH]; intros Nb D; simpl; auto.
+  constructor.
+  - intro H. apply in_app_or in H as [H|H]; [contradiction | eapply D; eauto; now left].
+  - apply IH; auto. intros y Hy. apply D. now right.
+Qed.
+
+Record kinv (inds : list individual) (n : Z) (c done pending U : list Z) : Prop := {
+  k_c : arr_is c (cnt inds U);
+  k_clen : zlen c = n;
+  k_U : NoDup U;
+  k_Uin : forall j, In j U <-> 0 <= j < n /\ ~ In j done;
+  k_nd : NoDup (done ++ pending);
+  k_rng : forall j, In j (done ++ pending) -> 0 <= j < n;
+  k_q : forall p, 0 <= p < n -> (In p (done ++ pending) <-> cnt inds U p = 0);
+  k_ord : forall k p j, nth_error done k = Some p -> 0 <= j < n -> In p (par inds j) ->
+                        exists k', (k' < k)%nat /\ nth_error done k' = Some j
+}.
+
+Lemma topo_loop_spec inds n :
+  n = zlen inds ->
+  (forall j r, get inds j = Ok r -> ps_ok n (i_parents r)) ->
+  forall fuel c done pending U done' c',
+  kinv inds n c done pending U ->
+  topo_loop fuel inds c done pending = Ok (done', c') ->
+  exists U', kinv inds n c' done' [] U'.
+Proof.
+  intros Hn Hps. induction fuel as [|fuel IH]; intros c done pending U done' c' K T; simpl in T; [discriminate|].
+  destruct pending as [|j rest].
+  - inversion T; subst. eauto.
+  - destruct K as [Kc Kl KU KUin Knd Krng Kq Kord].
+    assert (Rj : 0 <= j < n) by (apply Krng; apply in_or_app; right; now left).
+    destruct (get_ok_iff inds j) as [_ G]. destruct G as [r Gr]; [now rewrite <- Hn|].
+    rewrite Gr in T. simpl in T.
+    assert (Pj : par inds j = i_parents r) by (unfold par; now rewrite Gr).
+    assert (Nj : ~ In j done).
+    { intro H. apply NoDup_remove_2 in Knd. apply Knd. apply in_or_app. now left. }
+    assert (Uj : In j U) by (apply KUin; auto).
+    destruct (relax_spec (i_parents r) c (cnt inds U) rest Kc) as (c1 & nw & E1 & Z1 & A1 & NDw & Inw).
+    { rewrite Kl. eapply Hps; eauto. }
+    { intros p Hp. rewrite <- Pj. now apply cnt_ge. }
+    rewrite E1 in T. simpl in T.
+    apply (IH c1 (done ++ [j]) (rest ++ nw) (remove Z.eq_dec j U) done' c'); auto.
+    rewrite Kl in *.
+    assert (Cnt' : forall p, cnt inds (remove Z.eq_dec j U) p = cnt inds U p - occ p (i_parents r)).
+    { intro p. rewrite (cnt_remove inds U p j KU Uj), Pj. lia. }
+    assert (Xeq : (done ++ [j]) ++ rest ++ nw = (done ++ j :: rest) ++ nw).
+    { rewrite <- !app_assoc. reflexivity. }
+    constructor.
+    + eapply arr_is_ext; [exact A1|]. intros p Hp. now rewrite Cnt'.
+    + congruence.
+    + now apply NoDup_remove'.
+    + intro x. split.
+      * intro H. apply in_remove in H as [H Nx]. apply KUin in H as [H1 H2]. split; auto.
+        intro H3. apply in_app_or in H3 as [H3|[H3|[]]]; [contradiction | congruence].
+      * intros [H1 H2]. apply in_in_remove.
+        -- intro; subst. apply H2. apply in_or_app. right. now left.
+        -- apply KUin. split; auto. intro; apply H2. apply in_or_app. now left.
+    + rewrite Xeq. apply NoDup_app_intro; auto.
+      intros x Hx Hw. apply Inw in Hw as (Hr & Ho & Hz).
+      apply (Kq x Hr) in Hx. lia.
+    + rewrite Xeq. intros x Hx. apply in_app_or in Hx as [Hx|Hx]; [now apply Krng|].
+      apply Inw in Hx. tauto.
+    + rewrite Xeq. intros p Hp. rewrite Cnt'. pose proof (occ_nonneg p (i_parents r)) as O0. split.
+      * intro H. apply in_app_or in H as [H|H].
+        -- apply (Kq p Hp) in H. pose proof (cnt_ge inds U p j Uj) as Ge. rewrite Pj in Ge. lia.
+        -- apply Inw in H. tauto.
+      * intro H. destruct (Z.eq_dec (occ p (i_parents r)) 0) as [E0|N0].
+        -- apply in_or_app. left. apply (Kq p Hp). lia.
+        -- apply in_or_app. right. apply Inw. repeat split; try lia.
+    + intros k p i Hk Ri Hpi.
+      destruct (Nat.lt_ge_cases k (length done)) as [Lk|Gk].
+      * rewrite nth_error_app1 in Hk by auto.
+        destruct (Kord k p i Hk Ri Hpi) as (k' & Lk' & Hk'). exists k'. split; auto.
+        rewrite nth_error_app1 by lia. auto.
+      * rewrite nth_error_app2 in Hk by auto.
+        destruct (k - length done)%nat as [|m] eqn:Ek; simpl in Hk; [|destruct m; discriminate].
+        inversion Hk; subst p. clear Hk.
+        (* every child of j is already processed: otherwise the count of j would not be 0 *)
+        assert (Hi : In i done).
+        { destruct (in_dec Z.eq_dec i done) as [H|H]; auto. exfalso.
+          assert (In i U) by (apply KUin; auto).
+          pose proof (cnt_ge inds U j i H0) as Ge.
+          assert (cnt inds U j = 0) by (apply (Kq j Rj); apply in_or_app; right; now left).
+          apply occ_pos_in in Hpi. lia. }
+        destruct (In_nth_error _ _ Hi) as [k' Hk'].
+        assert ((k' < length done)%nat) by (apply nth_error_Some; congruence).
+        exists k'. split; [lia|]. rewrite nth_error_app1 by auto. auto.
+Qed.
+
+(* ---------------------------------------------------------------------- *)
+(* 7201: the traversal order                                               *)
+(* ---------------------------------------------------------------------- *)
+Lemma flat_map_par inds : flat_map (par inds) (zseq 0 (length inds)) = flat_map i_parents inds.
+Proof.
+  rewrite !flat_map_concat_map. f_equal.
+  pose proof (map_get_zseq inds []) as M. change (zlen (@nil individual)) with 0 in M. simpl in M.
+  assert (E : map (par inds) (zseq 0 (length inds))
+              = map (fun r => match r with Ok x => i_parents x | _ => [] end) (map (get inds) (zseq 0 (length inds))))
+    by (rewrite map_map; reflexivity).
+  rewrite E, M, map_map. reflexivity.
+Qed.
+
+Definition inds_ok (inds : list individual) : Prop :=
+  forall j r, get inds j = Ok r -> ps_ok (zlen inds) (i_parents r).
+
+Theorem topological_order_spec inds order :
+  inds_ok inds -> topological_order inds = Ok order ->
+  Permutation (zseq 0 (length inds)) order /\
+  (* every child comes before its parents in the traversal order *)
+  (forall l1 p l2 j, order = l1 ++ p :: l2 -> 0 <= j < zlen inds -> In p (par inds j) -> In j l1).
+Proof.
+  intros Hok T. unfold topological_order in T. set (n := length inds) in *.
+  destruct (count_parents_spec (flat_map i_parents inds) (repeat 0 n) (fun _ => 0) (arr_is_repeat 0 n))
+    as (c0 & E0 & Z0 & A0).
+  { rewrite zlen_repeat. intros p Hp. apply in_flat_map in Hp as (r & Hr & Hp).
+    destruct (In_nth_error _ _ Hr) as [k Hk]. eapply (Hok (Z.of_nat k) r); eauto. now apply get_of_nat. }
+  rewrite E0 in T. cbn [bind] in T. rewrite zlen_repeat in Z0.
+  assert (A0' : arr_is c0 (cnt inds (zseq 0 n))).
+  { eapply arr_is_ext; [exact A0|]. intros p Hp. unfold cnt. simpl. now rewrite flat_map_par. }
+  destruct (initial_todo_spec c0 _ A0' n) as (todo & E1 & ND1 & In1); [lia|].
+  rewrite E1 in T. cbn [bind] in T.
+  destruct (topo_loop (S n) inds c0 [] todo) as [[done c']| | |] eqn:TL; cbn [bind fst snd] in T; try discriminate.
+  destruct (existsb (fun x => 0 <? x) c') eqn:Ex; [discriminate|]. inversion T; subst order. clear T.
+  destruct (topo_loop_spec inds (Z.of_nat n) eq_refl Hok (S n) c0 [] todo (zseq 0 n) done c') as (U' & K); auto.
+  { constructor; auto.
+    - apply zseq_NoDup.
+    - intro j. rewrite zseq_in. simpl. tauto.
+    - intros j Hj. simpl in Hj. apply In1 in Hj. tauto.
+    - intros p Hp. simpl. rewrite In1. tauto.
+    - intros k p j Hk. destruct k; discriminate. }
+  destruct K as [Kc Kl KU KUin Knd Krng Kq Kord]. rewrite app_nil_r in *.
+  assert (All : forall p, 0 <= p < Z.of_nat n -> In p done).
+  { intros p Hp. apply (Kq p Hp).
+    pose proof (occ_nonneg p (flat_map (par inds) U')) as Ge. fold (cnt inds U' p) in Ge.
+    destruct (Z.eq_dec (cnt inds U' p) 0) as [|N]; auto. exfalso.
+    assert (Hin : In (cnt inds U' p) c') by (eapply get_in; apply Kc; rewrite Kl; exact Hp).
+    assert (existsb (fun x => 0 <? x) c' = true).
+    { apply existsb_exists. exists (cnt inds U' p). split; auto. apply Z.ltb_lt. lia. }
+    congruence. }
+  split.
+  - apply NoDup_Permutation; auto; [apply zseq_NoDup|].
+    intro x. rewrite zseq_in. split; [intro; apply All; lia | intro H; apply Krng in H; lia].
+  - intros l1 p l2 j E Rj Hp.
+    assert (Hk : nth_error done (length l1) = Some p).
+    { rewrite E, nth_error_app2, Nat.sub_diag by lia. reflexivity. }
+    destruct (Kord _ _ _ Hk Rj Hp) as (k' & Lk & Hk').
+    rewrite E, nth_error_app1 in Hk' by lia. eapply nth_error_In; eauto.
+Qed.
+
+(* ---------------------------------------------------------------------- *)
+(* 7279: sort_individuals                                                  *)
+(* ---------------------------------------------------------------------- *)
+(* [ids] lists, in output order, the ORIGINAL id of every output individual *)
+Definition id_image (ids : list Z) (x x' : Z) : Prop :=
+  (x = NULL /\ x' = NULL) \/ (x <> NULL /\ get ids x' = Ok x).
+Definition ind_image (ids : list Z) (r r' : individual) : Prop :=
+  i_flags r' = i_flags r /\ i_loc r' = i_loc r /\ i_md r' = i_md r /\
+  Forall2 (id_image ids) (i_parents r) (i_parents r').
+
+Lemma check_inds_spec t : check_inds t = true ->
+  inds_ok (t_inds t) /\ (forall nd, In nd (t_nodes t) -> NULL <= n_ind nd < zlen (t_inds t)).
+Proof.
+  unfold check_inds. rewrite andb_true_iff. intros [H1 H2]. split.
+  - intros j r G p Hp. rewrite forallb_forall in H1. apply indexed_get in G.
+    specialize (H1 _ G). simpl in H1. rewrite forallb_forall in H1. specialize (H1 p Hp).
+    apply orb_true_iff in H1 as [H1|H1]; [left; now apply Z.eqb_eq|].
+    apply andb_true_iff in H1 as [H1 _]. unfold in_range in H1.
+    rewrite andb_true_iff, Z.leb_le, Z.ltb_lt in H1. now right.
+  - intros nd Hn. rewrite forallb_forall in H2. specialize (H2 nd Hn).
+    rewrite andb_true_iff, Z.leb_le, Z.ltb_lt in H2. exact H2.
+Qed.
+
+Lemma Forall2_map_same' {A B C} (R : B -> C -> Prop) (f : A -> B) (g : A -> C) l :
+  Forall (fun x => R (f x) (g x)) l -> Forall2 R (map f l) (map g l).
+Proof. induction 1; simpl; constructor; auto. Qed.
+
+Theorem sort_individuals_spec t t' :
+  sort_individuals t = Ok t' ->
+  exists ids,
+    Permutation (zseq 0 (length (t_inds t))) ids /\
+    t' = set_inds_nodes t (t_inds t') (t_nodes t') /\
+    Forall2 (fun i r' => exists r, get (t_inds t) i = Ok r /\ ind_image ids r r') ids (t_inds t') /\
+    Forall2 (fun nd nd' => nd' = node_set_ind nd (n_ind nd') /\ id_image ids (n_ind nd) (n_ind nd'))
+            (t_nodes t) (t_nodes t') /\
+    (* every parent precedes its children *)
+    (forall q r' p', nth_error (t_inds t') q = Some r' -> In p' (i_parents r') -> p' <> NULL -> p' < Z.of_nat q).
+Proof.
+  unfold sort_individuals. intro S.
+  destruct (check_refs t && check_inds t) eqn:CK; cbn [negb] in S; [|discriminate].
+  apply andb_true_iff in CK as [_ CI]. destruct (check_inds_spec t CI) as [Hok Hnd].
+  set (inds := t_inds t) in *. set (n := length inds).
+  destruct (topological_order inds) as [order| | |] eqn:TO; cbn [bind] in S; try discriminate.
+  destruct (topological_order_spec inds order Hok TO) as [Pord Kord].
+  set (ids := rev order) in *.
+  assert (Pids : Permutation (zseq 0 n) ids) by (eapply Permutation_trans; [exact Pord | apply Permutation_rev]).
+  destruct (Permutation_zseq_range _ _ Pids) as (NDi & RGi & Li).
+  (* rows in new order *)
+  set (row := fun i => val (mkInd 0 [] [] []) (get inds i)).
+  rewrite (mapM_eq_map _ row) in S.
+  2:{ intros i Hi. apply RGi in Hi. destruct (get_ok_iff inds i) as [_ G].
+      destruct G as [r G]; [unfold zlen, n in *; lia|]. unfold row. rewrite G. reflexivity. }
+  cbn [bind] in S.
+  destruct (fill_id_map_spec ids 0 (repeat NULL n) NDi) as (idmap & Ef & Lf & Inv & _).
+  { intros id Hid. rewrite zlen_repeat. now apply RGi. }
+  fold n in S. rewrite Ef in S. cbn [bind] in S.
+  (* renaming of one id *)
+  set (rn := fun x => if x =? NULL then NULL else val NULL (get idmap x)).
+  assert (Rn : forall x, NULL <= x < Z.of_nat n -> remap_id idmap x = Ok (rn x) /\ id_image ids x (rn x)).
+  { intros x Hx. unfold remap_id, rn. destruct (x =? NULL) eqn:E.
+    - apply Z.eqb_eq in E. split; auto. now left.
+    - apply Z.eqb_neq in E. unfold NULL in *.
+      destruct (perm_zseq_nth n ids x Pids) as [q Hq]; [lia|].
+      rewrite (Inv q x Hq). simpl. split; [reflexivity|]. right. split; auto. now apply get_of_nat. }
+  set (newrow := fun r => ind_set_parents r (map rn (i_parents r))).
+  assert (RowIn : forall i, In i ids -> exists r, get inds i = Ok r /\ row i = r).
+  { intros i Hi. apply RGi in Hi. destruct (get_ok_iff inds i) as [_ G].
+    destruct G as [r G]; [unfold zlen, n in *; lia|]. exists r. unfold row. rewrite G. auto. }
+  assert (ParOk : forall i r, In i ids -> get inds i = Ok r -> forall p, In p (i_parents r) -> NULL <= p < Z.of_nat n).
+  { intros i r Hi G p Hp. destruct (Hok i r G p Hp) as [->|H]; unfold NULL, zlen, n in *; lia. }
+  rewrite (mapM_eq_map _ newrow) in S.
+  2:{ intros r Hr. apply in_map_iff in Hr as (i & <- & Hi). destruct (RowIn i Hi) as (r & G & ->).
+      rewrite (mapM_eq_map _ rn); [reflexivity|]. intros p Hp. apply Rn. eapply ParOk; eauto. }
+  cbn [bind] in S.
+  rewrite (mapM_eq_map _ (fun nd => node_set_ind nd (rn (n_ind nd)))) in S.
+  2:{ intros nd Hn. destruct (Rn (n_ind nd)) as [E _]; [specialize (Hnd nd Hn); unfold zlen, n, inds in *; lia|].
+      rewrite E. reflexivity. }
+  cbn [bind] in S. inversion S; subst t'. clear S. cbn [t_inds t_nodes set_inds_nodes].
+  exists ids. split; [exact Pids|]. split; [reflexivity|]. split; [|split].
+  - rewrite map_map. apply Forall2_map_same'. apply Forall_forall. intros i Hi.
+    destruct (RowIn i Hi) as (r & G & E). exists r. split; auto. rewrite E. unfold newrow, ind_image. simpl.
+    repeat split; auto. apply Forall2_map_same'. apply Forall_forall. intros p Hp.
+    apply Rn. eapply ParOk; eauto.
+  - apply Forall2_map_same'. apply Forall_forall. intros nd Hn. simpl. split; auto.
+    apply Rn. specialize (Hnd nd Hn). unfold zlen, n, inds in *. lia.
+  - intros q r' p' Hq Hp' Np'.
+    rewrite map_map, nth_error_map in Hq. destruct (nth_error ids q) as [x|] eqn:Nx; [|discriminate].
+    simpl in Hq. inversion Hq; subst r'. clear Hq. unfold newrow in Hp'. simpl in Hp'.
+    apply in_map_iff in Hp' as (p & <- & Hp).
+    destruct (RowIn x (nth_error_In _ _ Nx)) as (r & G & Er). rewrite Er in Hp.
+    pose proof (ParOk x r (nth_error_In _ _ Nx) G p Hp) as Rp.
+    assert (Np : p <> NULL) by (intro E; apply Np'; unfold rn; rewrite E; reflexivity).
+    destruct (Rn p Rp) as [_ [[? _]|[_ Gp]]]; [contradiction|].
+    (* p sits at position rn p of ids; x (a child of p) must come later *)
+    set (qp := rn p) in *. pose proof (get_lt _ _ _ Gp) as Rqp.
+    apply get_nth_error in Gp as [_ Gp].
+    destruct (nth_error_split ids (Z.to_nat qp) Gp) as (a & b & Eids & La).
+    assert (Eord : order = rev b ++ p :: rev a).
+    { rewrite <- (rev_involutive order). fold ids. rewrite Eids, rev_app_distr. simpl. now rewrite <- app_assoc. }
+    assert (Rx : 0 <= x < zlen inds) by (apply RGi, (nth_error_In _ _ Nx)).
+    assert (Pin : In p (par inds x)) by (unfold par; rewrite G; exact Hp).
+    pose proof (Kord _ _ _ x Eord Rx Pin) as Hxb. apply in_rev in Hxb.
+    (* x is in b, so its position is beyond |a| *)
+    destruct (Nat.lt_ge_cases (Z.to_nat qp) q) as [?|Hge]; [lia|]. exfalso.
+    rewrite Eids in Nx, NDi.
+    assert (In x (a ++ [p])).
+    { destruct (Nat.lt_ge_cases q (length a)) as [Hl|Hl].
+      - rewrite nth_error_app1 in Nx by auto. apply in_or_app. left. eapply nth_error_In; eauto.
+      - assert (q = length a) by lia. subst q. rewrite nth_error_app2, Nat.sub_diag in Nx by lia.
+        simpl in Nx. inversion Nx. apply in_or_app. right. now left. }
+    replace (a ++ p :: b) with ((a ++ [p]) ++ b) in NDi by (rewrite <- app_assoc; reflexivity).
+    clear - NDi H Hxb. induction (a ++ [p]) as [|y l IH]; simpl in *; [tauto|].
+    inversion NDi; subst. destruct H as [->|H]; auto. apply H2. apply in_or_app. now right.
 Qed.
